@@ -30,6 +30,11 @@ JsonPool == {
   JArr(<<O(<<JMem(<<79, 112, 116>>, JNull)>>), S(<<85, 110, 105, 116>>)>>),
   O(<<JMem(<<85, 110, 105, 116>>, JNull)>>), O(<<JMem(<<78, 101, 119>>, N("1")), JMem(<<85, 110, 105, 116>>, JNull)>>), O(<<JMem(<<78, 111>>, N("1"))>>),
   O(<<JMem(<<97>>, N("1")), JMem(<<98>>, N("2"))>>),
+  \* maps with keys that are not plain strings on the Rust side (newtype, char, unit variant, integer), flattened structs
+  O(<<JMem(<<97, 110, 110>>, JArr(<<N("1"), N("2")>>)), JMem(<<98>>, JArr(<<>>))>>), O(<<JMem(<<49>>, S(<<120>>)), JMem(<<45, 55>>, S(<<121>>))>>),
+  O(<<JMem(<<49>>, JTrue)>>), O(<<JMem(<<82, 101, 100>>, N("1")), JMem(<<66, 108, 117, 101>>, N("2"))>>), O(<<JMem(<<105, 100>>, N("1")), JMem(<<107>>, N("2")), JMem(<<106>>, N("3"))>>),
+  O(<<JMem(<<105, 100>>, N("1"))>>), JArr(<<S(<<97, 110, 110>>), S(<<98>>)>>), JArr(<<S(<<97, 110, 110>>), N("2")>>),
+  O(<<JMem(<<97>>, JNull), JMem(<<98>>, O(<<JMem(<<120>>, N("1")), JMem(<<121>>, N("2"))>>))>>), O(<<JMem(<<48, 49>>, S(<<120>>))>>), O(<<JMem(<<32, 49>>, JTrue)>>),
   O(<<JMem(<<112>>, O(<<JMem(<<120>>, N("1")), JMem(<<121>>, N("2"))>>)), JMem(<<101>>, S(<<85, 110, 105, 116>>)), JMem(<<111>>, JArr(<<N("1")>>))>>),
   O(<<JMem(<<112>>, O(<<JMem(<<120>>, N("1")), JMem(<<121>>, N("2"))>>)), JMem(<<101>>, O(<<JMem(<<78, 101, 119>>, N("5"))>>)), JMem(<<111>>, JNull), JMem(<<100>>, N("9"))>>) }
 DeCases(zzdummy) == LET js == SetToSeq(JsonPool) IN [i \in DOMAIN js |-> [e |-> "serde", kind |-> "de", json |-> js[i]]]
